@@ -85,7 +85,8 @@ CHECKS = {
        "stack invariant, and close_file always ends with nothing open. The model is trace-validated: the implementation's own classification of "
        "each logical line is recorded and replayed (scope objects, lines, parents, end errors compared). Totality of the text-level readers, the "
        "preprocessor and the time bound are exercised on prefixes/mutants of all sample sources (parse and the didOpen/didChange path), not proved; "
-       "for long runs of equal lines the number of line fetches must stay linear in the length (deterministic count).",
+       "for long runs of equal lines the number of line fetches must stay linear in the length (deterministic count); after one-line edits that "
+       "comment a line out or in again the outline must be that of a fresh server on the client's text.",
   note="Partial. Trusted: Coq kernel, vm_compute, recording wrappers, harness. Not modelled: statement readers, regex running time, wall time.",
   technique="Rocq proof (safety invariant of a stack machine for all token streams) + trace validation + mutation-based crash oracle",
   design="4/C03"),
